@@ -19,6 +19,13 @@ def cleanBuf (img : Bytes) (off len : Nat) : Bytes :=
 def blockAt (img : Bytes) (h : BlockHandle) : Res Bytes :=
   verifyBlock (cleanBuf img h.offset (h.size + Consts.tableBlockCksumLen + Consts.tableBlockCompressLen)) h.size
 
+/-- the allocations a fault-free `read_block_contents` of the block at `h` makes, most recent first:
+    the decompression buffer (only for a block stored as snappy whose declared length passes the guard
+    of fix D20), after the `read_bytes` buffer of the physical size -/
+def blockAllocs (img : Bytes) (h : BlockHandle) : List Nat :=
+  verifyAllocs (cleanBuf img h.offset (h.size + Consts.tableBlockCksumLen + Consts.tableBlockCompressLen)) h.size
+    ++ [h.size + Consts.tableBlockCksumLen + Consts.tableBlockCompressLen]
+
 /-- … and validated as a table block (`read_table_block`) -/
 def tableBlockAt (img : Bytes) (h : BlockHandle) : Res Bytes :=
   match blockAt img h with
